@@ -78,6 +78,7 @@ type vOutcome struct {
 	o, e     []string
 	x, y     []string
 	user     [nOpts]bool // SetByUser of a, b, o, e
+	help     string
 }
 
 type vAppCfg struct {
@@ -86,6 +87,8 @@ type vAppCfg struct {
 	envAll   bool   // every option declared with an EnvVar (VA VB VO VE)
 	policy   flag.ErrorHandling
 	noAction bool
+	declMask int  // bits 0..5: declare a, b, o, e, X, Y (0 = everything)
+	wantHelp bool // also capture PrintHelp output
 }
 
 // vRunTable builds the real application over the declaration table and runs it.
@@ -103,22 +106,59 @@ func vRunTable(cfg vAppCfg, argv []string) (out vOutcome) {
 		return ""
 	}
 	var user [nOpts]bool
-	a := app.Bool(BoolOpt{Name: "a aa", EnvVar: envOf("VA"), SetByUser: &user[oA]})
-	b := app.Bool(BoolOpt{Name: "b bb", EnvVar: envOf("VB"), SetByUser: &user[oB]})
-	o := app.Strings(StringsOpt{Name: "o oo", EnvVar: envOf("VO"), SetByUser: &user[oO]})
-	e := app.Strings(StringsOpt{Name: "e ee", EnvVar: envOf("VE"), SetByUser: &user[oE]})
-	x := app.Strings(StringsArg{Name: "X"})
-	y := app.Strings(StringsArg{Name: "Y"})
+	mask := cfg.declMask
+	if mask == 0 {
+		mask = 63
+	}
+	var a, b *bool
+	var o, e, x, y *[]string
+	if mask&1 != 0 {
+		a = app.Bool(BoolOpt{Name: "a aa", EnvVar: envOf("VA"), SetByUser: &user[oA]})
+	}
+	if mask&2 != 0 {
+		b = app.Bool(BoolOpt{Name: "b bb", EnvVar: envOf("VB"), SetByUser: &user[oB]})
+	}
+	if mask&4 != 0 {
+		o = app.Strings(StringsOpt{Name: "o oo", EnvVar: envOf("VO"), SetByUser: &user[oO]})
+	}
+	if mask&8 != 0 {
+		e = app.Strings(StringsOpt{Name: "e ee", EnvVar: envOf("VE"), SetByUser: &user[oE]})
+	}
+	if mask&16 != 0 {
+		x = app.Strings(StringsArg{Name: "X"})
+	}
+	if mask&32 != 0 {
+		y = app.Strings(StringsArg{Name: "Y"})
+	}
+	cp := func(p *[]string) []string {
+		if p == nil {
+			return nil
+		}
+		return append([]string(nil), *p...)
+	}
 	if !cfg.noAction {
 		app.Action = func() {
 			out.ran++
-			out.a, out.b = *a, *b
-			out.o = append([]string(nil), *o...)
-			out.e = append([]string(nil), *e...)
-			out.x = append([]string(nil), *x...)
-			out.y = append([]string(nil), *y...)
+			if a != nil {
+				out.a = *a
+			}
+			if b != nil {
+				out.b = *b
+			}
+			out.o, out.e, out.x, out.y = cp(o), cp(e), cp(x), cp(y)
 			out.user = user
 		}
+	}
+	if cfg.wantHelp {
+		buf := &vBuf{}
+		stdErr = buf
+		func() {
+			defer func() { recover() }()
+			app.doInit()
+			app.PrintHelp()
+		}()
+		out.help = buf.s
+		stdErr = vDiscard{}
 	}
 	func() {
 		defer func() {
